@@ -1862,3 +1862,131 @@ Proof.
   split; [apply (lc_state _ _ _ _ HC')|]. split; [apply (lc_term _ _ _ _ HC')|].
   split; [apply (fi_state _ _ _ _ _ _ _ HF')|apply (fi_term _ _ _ _ _ _ _ HF')].
 Qed.
+
+(* ================================================================== *)
+(* example pair (used by the non-vacuity Examples of Props/C10.v)      *)
+(* ================================================================== *)
+
+Definition xp_ent (i t : N) : entry := mkEntry 0 t i [] [].
+Definition xp_cs : conf_state := mkCS [1; 2] [] [] [] false.
+(* leader 1, term 2: entries 1..5 with terms 1,1,2,2,2 *)
+Definition xp_storeL : MemStorage.mem :=
+  mkMem (mkHS 2 1 0) xp_cs [xp_ent 1 1; xp_ent 2 1; xp_ent 3 2; xp_ent 4 2; xp_ent 5 2] 0 0
+        false false None.
+(* follower 2: entries 1..3 with terms 1,1,1 - entry 3 diverges from the leader's *)
+Definition xp_storeF : MemStorage.mem :=
+  mkMem (mkHS 2 1 0) xp_cs [xp_ent 1 1; xp_ent 2 1; xp_ent 3 1] 0 0 false false None.
+Definition xp_logL : raft_log := mkLog xp_storeL (u_new 6) 0 5 0 0.
+Definition xp_logF : raft_log := mkLog xp_storeF (u_new 4) 0 3 0 0.
+
+(* the leader tracks the follower as a PAUSED probe at next_idx 5 (matched 0): without the
+   heartbeat-response mechanism nothing would ever be sent *)
+Definition xp_prs (pf : progress) : tracker :=
+  mkTr [(1, mkPr 5 6 Replicate false 0 0 true (Inflights.new 256) 0 0); (2, pf)]
+       (mkConf [1; 2] [] [] [] false) [] 256 false.
+Definition xp_pr_probe : progress := mkPr 0 5 Probe true 0 0 false (Inflights.new 256) 0 0.
+(* ... or as Replicate with a FULL window (capacity 2, two stale indexes in flight) and an
+   optimistic next_idx *)
+Definition xp_pr_repl : progress :=
+  mkPr 0 6 Replicate false 0 0 false (mkInf 0 2 [4; 5] 2 None true) 0 0.
+
+Definition xp_L (pf : progress) : raft :=
+  mkRaft 2 1 1 [] xp_logL 256 1000 0 Leader true 1 None 0 (ro_new 0) 0 0
+         false false false false false 2 10 15 10 20 0%Z u64_max 0 5 u64_max
+         (xp_prs pf) [] [] None.
+Definition xp_F : raft :=
+  mkRaft 2 1 2 [] xp_logF 256 1000 0 Follower true 1 None 0 (ro_new 0) 0 0
+         false false false false false 2 10 15 10 20 0%Z u64_max 0 0 u64_max
+         (xp_prs xp_pr_probe) [] [] None.
+
+Lemma xp_storeL_inv : SInv xp_storeL.
+Proof. unfold MemStorageProofs.RepInv, next_of, first_of, xp_storeL, u64_max. cbn. repeat split; lia. Qed.
+Lemma xp_storeF_inv : SInv xp_storeF.
+Proof. unfold MemStorageProofs.RepInv, next_of, first_of, xp_storeF, u64_max. cbn. repeat split; lia. Qed.
+
+Lemma xp_logL_inv : RepInv false xp_logL.
+Proof.
+  destruct (log_new_ok xp_storeL 0 xp_storeL_inv eq_refl) as (lg & Hl & Hr & _).
+  assert (E : log_new xp_storeL 0 = Ok xp_logL) by reflexivity.
+  rewrite E in Hl. inversion Hl; subst lg. exact Hr.
+Qed.
+Lemma xp_logF_inv : RepInv false xp_logF.
+Proof.
+  destruct (log_new_ok xp_storeF 0 xp_storeF_inv eq_refl) as (lg & Hl & Hr & _).
+  assert (E : log_new xp_storeF 0 = Ok xp_logF) by reflexivity.
+  rewrite E in Hl. inversion Hl; subst lg. exact Hr.
+Qed.
+
+Lemma xp_agree : Agree (abs xp_logL) (abs xp_logF) 0 2.
+Proof.
+  constructor.
+  - lia.
+  - vm_compute. discriminate.
+  - vm_compute. discriminate.
+  - intros i Hi. assert (E : i = 0 \/ i = 1 \/ i = 2) by lia.
+    destruct E as [->|[->| ->]]; reflexivity.
+  - intros i Hi. assert (E : i = 3 \/ i = 4 \/ i = 5).
+    { assert (Hl : ll_last (abs xp_logL) = 5) by reflexivity. rewrite Hl in Hi. lia. }
+    destruct E as [->|[->| ->]]; vm_compute; discriminate.
+Qed.
+
+(* the hypotheses of pair_convergence hold of the example pair, for both initial
+   Progress values; 188 = (heartbeat_timeout + 2) * pair_measure_bound 5 0 *)
+Lemma xp_nz : forall e, In e (ll_ents (abs xp_logL)) -> e_term e <> 0.
+Proof.
+  intros e He. vm_compute in He.
+  repeat (destruct He as [<-|He]; [vm_compute; discriminate|]). destruct He.
+Qed.
+
+Ltac xp_side :=
+  first [ exact xp_logL_inv | exact xp_logF_inv | exact xp_nz | exact xp_agree
+        | reflexivity
+        | (vm_compute; discriminate)
+        | (vm_compute; reflexivity)
+        | (vm_compute; lia)
+        | (left; reflexivity) | (right; reflexivity)
+        | (right; vm_compute; reflexivity)
+        | (exists 0; reflexivity) ].
+
+Lemma xp_converges_probe L' F' :
+  rounds 188 (xp_L xp_pr_probe) xp_F = Ok (L', F') ->
+  exists pr', get_pr L' 2 = Some pr' /\ matched pr' = 5 /\
+    Agree (abs xp_logL) (abs (r_log F')) 0 5 /\ r_state L' = Leader /\ r_state F' = Follower.
+Proof.
+  intros Hrun.
+  pose proof (fun H1 H2 H3 H4 H5 H6 H7 H8 H9 H10 H11 H12 H13 H14 H15 H16 H17 H18 H19 H20 H21 H22
+                  H23 H24 H25 H26 H27 H28 H29 =>
+    pair_convergence (xp_L xp_pr_probe) xp_F false false xp_pr_probe 2 188 L' F'
+      H1 H2 H3 H4 H5 H6 H7 H8 H9 H10 H11 H12 H13 H14 H15 H16 H17 H18 H19 H20 H21 H22 H23 H24 H25
+      H26 H27 H28 H29 Hrun) as X.
+  destruct X as (pr' & A & B & _ & D & E & _ & G & _); try xp_side.
+  exists pr'. auto.
+Qed.
+
+Lemma xp_converges_repl L' F' :
+  rounds 188 (xp_L xp_pr_repl) xp_F = Ok (L', F') ->
+  exists pr', get_pr L' 2 = Some pr' /\ matched pr' = 5 /\
+    Agree (abs xp_logL) (abs (r_log F')) 0 5 /\ r_state L' = Leader /\ r_state F' = Follower.
+Proof.
+  intros Hrun.
+  pose proof (fun H1 H2 H3 H4 H5 H6 H7 H8 H9 H10 H11 H12 H13 H14 H15 H16 H17 H18 H19 H20 H21 H22
+                  H23 H24 H25 H26 H27 H28 H29 =>
+    pair_convergence (xp_L xp_pr_repl) xp_F false false xp_pr_repl 2 188 L' F'
+      H1 H2 H3 H4 H5 H6 H7 H8 H9 H10 H11 H12 H13 H14 H15 H16 H17 H18 H19 H20 H21 H22 H23 H24 H25
+      H26 H27 H28 H29 Hrun) as X.
+  destruct X as (pr' & A & B & _ & D & E & _ & G & _); try xp_side.
+  exists pr'. auto.
+Qed.
+
+(* and the run does not panic: the conclusion is reached, computed *)
+Lemma xp_run_probe :
+  exists L' F' pr', rounds 188 (xp_L xp_pr_probe) xp_F = Ok (L', F') /\
+    get_pr L' 2 = Some pr' /\ matched pr' = 5 /\ pr_state pr' = Replicate /\
+    last_index (r_log F') = 5 /\ committed (r_log F') = 5.
+Proof. vm_compute. do 3 eexists. repeat split; reflexivity. Qed.
+
+Lemma xp_run_repl :
+  exists L' F' pr', rounds 188 (xp_L xp_pr_repl) xp_F = Ok (L', F') /\
+    get_pr L' 2 = Some pr' /\ matched pr' = 5 /\ pr_state pr' = Replicate /\
+    last_index (r_log F') = 5 /\ committed (r_log F') = 5.
+Proof. vm_compute. do 3 eexists. repeat split; reflexivity. Qed.
